@@ -81,7 +81,24 @@ func objOf(info *types.Info, id *ast.Ident) types.Object {
 	if o := info.Defs[id]; o != nil {
 		return o
 	}
-	return info.Uses[id]
+	o := info.Uses[id]
+	// a local that is nothing but another name for a variable (dest := destination) denotes that variable
+	for hops := 0; o != nil && hops < 4; hops++ {
+		a := model.AliasOf(o)
+		if a == nil {
+			break
+		}
+		aid, ok := ast.Unparen(a).(*ast.Ident)
+		if !ok {
+			break
+		}
+		t := info.Uses[aid]
+		if t == nil {
+			break
+		}
+		o = t
+	}
+	return o
 }
 
 // Write is a write access to a variable.
@@ -543,4 +560,74 @@ func exprThroughInlining(m *model.Model, p *packages.Package, e ast.Expr, stack 
 		}
 	}
 	return cur, curPkg
+}
+
+// callSelector returns the selector through which a call is made: the call's own `x.M`, or, for a call through a local
+// bound once to a method value (next := x.M; next(...)), that binding's selector.
+func callSelector(info *types.Info, call *ast.CallExpr) *ast.SelectorExpr {
+	switch f := ast.Unparen(call.Fun).(type) {
+	case *ast.SelectorExpr:
+		return f
+	case *ast.Ident:
+		if o := info.Uses[f]; o != nil {
+			return model.MethodValueOf(o)
+		}
+	}
+	return nil
+}
+
+// atomicFlagStore recognises a store of a constant into an atomic flag variable, written directly
+// (`atomic.StoreInt32(&flag, 1)`) or through a method of a small flag type of the repository whose body is such a store
+// on its receiver (`flag.set()`). Returns the flag variable and the constant.
+func atomicFlagStore(m *model.Model, p *packages.Package, call *ast.CallExpr) (types.Object, int64, bool) {
+	info := p.TypesInfo
+	cl := model.Callee(info, call)
+	if cl == nil {
+		return nil, 0, false
+	}
+	if cl.Pkg() != nil && cl.Pkg().Path() == "sync/atomic" && strings.HasPrefix(cl.Name(), "Store") && len(call.Args) == 2 {
+		if id, _ := rootIdent(call.Args[0]); id != nil {
+			if v, ok := constVal(info, call.Args[1]); ok {
+				return objOf(info, id), v, true
+			}
+		}
+		return nil, 0, false
+	}
+	d := m.Decls[cl]
+	sel, isSel := ast.Unparen(call.Fun).(*ast.SelectorExpr)
+	if d == nil || d.Decl == nil || d.Decl.Recv == nil || d.Decl.Body == nil || !isSel || len(call.Args) != 0 {
+		return nil, 0, false
+	}
+	rv := recvObj(d.Pkg.TypesInfo, d.Decl)
+	if rv == nil || len(d.Decl.Body.List) != 1 {
+		return nil, 0, false
+	}
+	es, ok := d.Decl.Body.List[0].(*ast.ExprStmt)
+	if !ok {
+		return nil, 0, false
+	}
+	inner, ok := es.X.(*ast.CallExpr)
+	if !ok {
+		return nil, 0, false
+	}
+	icl := model.Callee(d.Pkg.TypesInfo, inner)
+	if icl == nil || icl.Pkg() == nil || icl.Pkg().Path() != "sync/atomic" || !strings.HasPrefix(icl.Name(), "Store") || len(inner.Args) != 2 {
+		return nil, 0, false
+	}
+	// the first argument is derived from the receiver: (*int32)(f), &f.v, f
+	usesRecv := false
+	ast.Inspect(inner.Args[0], func(n ast.Node) bool {
+		if id, ok := n.(*ast.Ident); ok && d.Pkg.TypesInfo.Uses[id] == types.Object(rv) {
+			usesRecv = true
+		}
+		return true
+	})
+	v, isConst := constVal(d.Pkg.TypesInfo, inner.Args[1])
+	if !usesRecv || !isConst {
+		return nil, 0, false
+	}
+	if id, _ := rootIdent(sel.X); id != nil {
+		return objOf(info, id), v, true
+	}
+	return nil, 0, false
 }
